@@ -230,7 +230,8 @@ def spec_done(sx, self):
     return C.Pred(lambda res: res is None, "returns None")
 
 
-con = contract(QUAL, PROPS)
+# (also C07: two objects that get ONE name are emitted as one VHDL signal with the drivers of both)
+con = contract(QUAL, PROPS + ("C07",))
 for kname, mk in OBJ_KINDS.items():
     for named in (True, False):
         if named and kname in ("concurrent", "process", "instance"):
@@ -375,7 +376,7 @@ class LitA(cohdl.Entity):
             await cohdl.true
             self.o <<= state_0
 t = std.VhdlCompiler.to_string(LitA)
-print("TWICE" if re.search(r"type \\\\w+ is \\\\([^)]*\\\\bstate_0\\\\b", t) and re.search(r"signal state_0\\\\b", t) else "ONCE")
+print("TWICE" if re.search(r"type \\w+ is \\([^)]*\\bstate_0\\b", t) and re.search(r"signal state_0\\b", t) else "ONCE")
 class Mode(enum.Enum):
     signal = enum.auto()
     idle = enum.auto()
@@ -400,5 +401,5 @@ def replay_enum_literals(payload):
     from contracts.c06_extra import _run_design
 
     rc, out = _run_design(_ENUM_LITERAL_DESIGN)
-    return {"reproduced": "TWICE" in out or "RESERVED-ACCEPTED" in out,
+    return {"reproduced": rc == 0 and ("TWICE" in out or "RESERVED-ACCEPTED" in out),
             "detail": "a signal named like a state literal / an enumeration literal that is a reserved word: " + out[-120:]}
